@@ -645,8 +645,16 @@ class Unit:
                 if depth == 0:
                     break
                 depth -= 1
-            elif depth == 0 and not (ch.isalnum() or ch in '_.:<>&*?' or ch.isspace()):
-                break
+            elif depth == 0:
+                if ch.isspace():
+                    # whitespace belongs to the chain only in front of a `.method` continuation line
+                    n2 = k
+                    while n2 < len(t) and t[n2].isspace():
+                        n2 += 1
+                    if n2 >= len(t) or t[n2] != '.':
+                        break
+                elif not (ch.isalnum() or ch in '_.:<>&*?'):
+                    break
             k -= 1
         s0 = k + 1
         while s0 < j and t[s0].isspace():
@@ -770,21 +778,8 @@ class Unit:
         accpat, x, cbody = cm.group(1), cm.group(2), cm.group(3).strip().rstrip(',').strip()
         # receiver start: scan backwards to the start of the postfix chain
         j = m.start()
-        depth = 0
-        k = j - 1
-        while k >= 0:
-            ch = t[k]
-            if ch in ')]':
-                depth += 1
-            elif ch in '([':
-                if depth == 0:
-                    break
-                depth -= 1
-            elif depth == 0 and not (ch.isalnum() or ch in '_.:<>&* \n\t'):
-                break
-            k -= 1
-        recv = t[k + 1:j].strip()
-        recv_start = j - len(t[k + 1:j].lstrip())
+        recv_start = self.recv_start(t, j)
+        recv = t[recv_start:j].strip()
         L = c.loops.get('fold') if c else None
         Lf = c.loops.get(1000) if c else None   # loop index 1000 = the fold loop
         spec = ''
